@@ -232,9 +232,10 @@ pub fn drive(args: &[String]) {
                 } else if i < 4 * k {
                     vec![json!({"below": [rng.below(i + 1), i + 1]})]
                 } else {
-                    let us = [63u64, 61, 57, 52, 47, 40, 36, 33];
-                    let u0 = us[rng.below(8) as usize];
-                    let u1 = us[rng.below(8) as usize];
+                    // small values too: long gaps (beyond the horizon the clause can compute: the items up to it must all be skipped)
+                    let us = [63u64, 61, 57, 52, 47, 40, 36, 33, 25, 17, 9, 3, 1];
+                    let u0 = us[rng.below(13) as usize];
+                    let u1 = us[rng.below(13) as usize];
                     if i == 4 * k {
                         vec![json!({"unitcell": [u0, 64]}), json!({"unitcell": [u1, 64]}), json!({"below": [rng.below(k), k]})]
                     } else {
